@@ -39,10 +39,12 @@ type conf struct {
 	life     time.Duration // ticket_lifetime
 	noaddr   bool
 	topology string // single | xrealm-mapped | referral-N | referral-loop
+	tgsEt    int    // index into etLists: default_tgs_enctypes (default_tkt_enctypes is etlist; the two may differ)
+	ktOnly   bool   // kind kt: the keytab holds keys of the default_tkt_enctypes only (as an administrator would export it)
 }
 
 func (c conf) String() string {
-	return fmt.Sprintf("%s/etlist=%d/preauth=%s/fwd=%v/prox=%v/canon=%v/renew=%v/life=%v/noaddr=%v/%s", c.kind, c.etlist, c.policy, c.fwd, c.prox, c.canon, c.renew, c.life, c.noaddr, c.topology)
+	return fmt.Sprintf("%s/etlist=%d/preauth=%s/fwd=%v/prox=%v/canon=%v/renew=%v/life=%v/noaddr=%v/%s/tgsetlist=%d/ktonly=%v", c.kind, c.etlist, c.policy, c.fwd, c.prox, c.canon, c.renew, c.life, c.noaddr, c.topology, c.tgsEt, c.ktOnly)
 }
 
 var etLists = [][]int32{{18, 17}, {20, 19, 18}, {23, 16, 17}}
@@ -64,6 +66,7 @@ type world struct {
 	now    atomic.Int64
 	rnd    *vh.Rand
 	kt     *keytab.Keytab
+	ktEnts []accept.KeytabEntry
 	pw     string
 	realms []string
 }
@@ -71,6 +74,36 @@ type world struct {
 func svcName(i int) kmsg.Name { return kmsg.N(2, "HTTP", fmt.Sprintf("svc%d.home.gokrb5", i)) }
 
 func remoteSvc(top string) kmsg.Name { return kmsg.N(2, "HTTP", "svc."+top+".remote") }
+
+// services of realm R1 that the client finds through the [domain_realm] mapping (no referral: the client keeps a session for R1)
+const nMapped = 3
+
+func mappedSvc(i int) kmsg.Name {
+	if i == 0 {
+		return kmsg.N(2, "HTTP", "svc.mapped.r1")
+	}
+	return kmsg.N(2, "HTTP", fmt.Sprintf("svc%d.mapped.r1", i))
+}
+
+// keytabFor returns the keytab of the keytab client: all keys, or only those of the given encryption types.
+func (w *world) keytabFor(only []int32) (*keytab.Keytab, error) {
+	if only == nil {
+		return w.kt, nil
+	}
+	var ents []accept.KeytabEntry
+	for _, e := range w.ktEnts {
+		for _, et := range only {
+			if e.Etype == et {
+				ents = append(ents, e)
+			}
+		}
+	}
+	kt := keytab.New()
+	if err := kt.Unmarshal(accept.KeytabV2(ents)); err != nil {
+		return nil, err
+	}
+	return kt, nil
+}
 
 func newWorld(id int) (*world, error) {
 	w := &world{rnd: vh.NewRand("c10world", id), pw: "pässwörd-\U0001F511"}
@@ -94,6 +127,7 @@ func newWorld(id int) (*world, error) {
 	for _, ki := range p.Keys {
 		ents = append(ents, accept.KeytabEntry{Realm: home, Name: p.Name, Kvno: ki.Kvno, Etype: ki.Etype, Key: ki.Key, Timestamp: 1})
 	}
+	w.ktEnts = ents
 	w.kt = keytab.New()
 	if err := w.kt.Unmarshal(accept.KeytabV2(ents)); err != nil {
 		return nil, err
@@ -122,7 +156,9 @@ func newWorld(id int) (*world, error) {
 	hr.Referrals[ls.String()] = chain(1)
 	w.k.Realms[chain(1)].Referrals[ls.String()] = home
 	// explicit cross-realm: service in R1, client knows the mapping
-	w.k.AddService(chain(1), kmsg.N(2, "HTTP", "svc.mapped.r1"), 18)
+	for i := 0; i < nMapped; i++ {
+		w.k.AddService(chain(1), mappedSvc(i), 18)
+	}
 	ep, err := simkdc.NewEndpoint(fmt.Sprintf("kdc-w%d", id), w.k, simkdc.Answers, simkdc.Answers)
 	if err != nil {
 		return nil, err
@@ -134,7 +170,13 @@ func newWorld(id int) (*world, error) {
 func (w *world) confText(c conf) string {
 	var sb strings.Builder
 	fmt.Fprintf(&sb, "[libdefaults]\n default_realm = %s\n dns_lookup_kdc = false\n dns_lookup_realm = false\n allow_weak_crypto = true\n", home)
-	fmt.Fprintf(&sb, " default_tkt_enctypes = %s\n default_tgs_enctypes = %s\n permitted_enctypes = %s\n", etNames(etLists[c.etlist]), etNames(etLists[c.etlist]), etNames(etLists[c.etlist]))
+	permitted := append([]int32{}, etLists[c.etlist]...)
+	for _, e := range etLists[c.tgsEt] {
+		if !strings.Contains(" "+etNames(permitted)+" ", " "+kcrypto.EtypeName(e)+" ") {
+			permitted = append(permitted, e)
+		}
+	}
+	fmt.Fprintf(&sb, " default_tkt_enctypes = %s\n default_tgs_enctypes = %s\n permitted_enctypes = %s\n", etNames(etLists[c.etlist]), etNames(etLists[c.tgsEt]), etNames(permitted))
 	fmt.Fprintf(&sb, " forwardable = %v\n proxiable = %v\n canonicalize = %v\n noaddresses = %v\n", c.fwd, c.prox, c.canon, c.noaddr)
 	fmt.Fprintf(&sb, " ticket_lifetime = %ds\n", int(c.life.Seconds()))
 	if c.renew > 0 {
@@ -166,13 +208,16 @@ func TestProp(t *testing.T) {
 	}
 	r.SetRule("histories of client operations {Login, AffirmLogin, GetServiceTicket(4 repeated SPNs, topology SPN), GetCachedTicket, advance(delta), Destroy+re-create} against a simulated multi-realm KDC under a virtual clock; delta drawn from the interesting instants of the tickets issued so far " +
 		"(just before / at / after endtime, the 5/6-lifetime auto-renew point, renew-till) and seeded values; seeded configurations over credential kind x etype list x pre-auth policy x forwardable x proxiable x canonicalize x renew_lifetime x ticket_lifetime x noaddresses x topology " +
-		"(single realm, mapped cross-realm, referral chains 0..8, referral loop). Oracles: the KDC's strictly decoded request log vs the configuration; returned (ticket,key) pairs vs the KDC issue log and the virtual clock; round-trip bounds. distinct = (configuration, history index); non-trivial = history with >= 1 ticket returned")
+		"(single realm, mapped cross-realm with 3 services, referral chains 0..8, referral loop) x default_tgs_enctypes (same list as default_tkt_enctypes / another one) x keytab contents (all keys / keys of default_tkt_enctypes only); " +
+		"in the mapped cross-realm topology without renewable tickets the clock also passes the lifetime of the cross-realm TGT. Oracles: the KDC's strictly decoded request log vs the configuration; returned (ticket,key) pairs vs the KDC issue log and the virtual clock; round-trip bounds. distinct = (configuration, history index); non-trivial = history with >= 1 ticket returned")
 	r.Assume("simulated KDC conformant to RFC 4120 for the driven exchanges; KDC clock follows the virtual clock with a lag < 5 s")
 	r.Note("nonce reuse between the two AS-REQs of one pre-authenticated login is observed, not judged (not in the statement)")
 
 	nconf, nhist, nops := 48, 4, 30
+	nconfX := 12
 	if vh.Thorough() {
 		nconf, nhist, nops = 1500, 8, 60
+		nconfX = 60
 	}
 	var confs []conf
 	crnd := vh.NewRand("c10confs")
@@ -181,6 +226,24 @@ func TestProp(t *testing.T) {
 			fwd: crnd.Bool(), prox: crnd.Bool(), canon: crnd.Bool(), noaddr: crnd.Bool(),
 			renew: vh.Pick(crnd, time.Duration(0), 7*24*time.Hour), life: vh.Pick(crnd, 10*time.Minute, 24*time.Hour), topology: topologies[i%len(topologies)]}
 		confs = append(confs, c)
+	}
+	// a second family stays in the one multi-realm regime in which a virtual clock can pass the lifetime of a cross-realm TGT
+	// (mapped realm, tickets not renewable; see sessionLimit): the other dimensions are drawn as above
+	for i := 0; i < nconfX; i++ {
+		c := conf{kind: vh.Pick(crnd, "pw", "kt", "pwsa"), etlist: crnd.Intn(len(etLists)), policy: vh.Pick(crnd, "none", "info2", "info+pwsalt"),
+			fwd: crnd.Bool(), prox: crnd.Bool(), canon: crnd.Bool(), noaddr: crnd.Bool(),
+			renew: 0, life: vh.Pick(crnd, 10*time.Minute, 24*time.Hour), topology: "xrealm-mapped"}
+		confs = append(confs, c)
+	}
+	// default_tgs_enctypes: the same list as default_tkt_enctypes in half of the configurations, another one in the others;
+	// keytab clients: the keytab holds all keys or only those of default_tkt_enctypes
+	for i := range confs {
+		xr := vh.NewRand("c10confs-etypes", i)
+		confs[i].tgsEt = confs[i].etlist
+		if xr.Bool() {
+			confs[i].tgsEt = (confs[i].etlist + 1 + xr.Intn(len(etLists)-1)) % len(etLists)
+		}
+		confs[i].ktOnly = confs[i].kind == "kt" && xr.Bool()
 	}
 	type job struct {
 		c conf
@@ -231,6 +294,11 @@ func TestProp(t *testing.T) {
 	r.Require("renewals_observed", 5)
 	r.Require("referral_chains_followed", 5)
 	r.Require("advances_across_endtime", 20)
+	r.Require("requests_checked_AS_tkt_and_tgs_enctypes_differ", 50)
+	r.Require("requests_checked_TGS_tkt_and_tgs_enctypes_differ", 100)
+	r.Require("logins_with_keytab_of_tkt_enctypes_only", 5)
+	r.Require("advances_across_xrealm_tgt_refresh_point", 4)
+	r.Require("xrealm_tickets_obtained_after_tgt_refresh_due", 2)
 }
 
 func runHistory(t *testing.T, r *vh.Run, w *world, ck string, c conf, nops int) {
@@ -261,6 +329,13 @@ func runHistory(t *testing.T, r *vh.Run, w *world, ck string, c conf, nops int) 
 		cname = "pwsalted"
 	}
 	w.k.Realms[home].Principals[cname].PreAuth = c.policy
+	kt := w.kt
+	if c.ktOnly {
+		if kt, err = w.keytabFor(etLists[c.etlist]); err != nil {
+			r.Inconclusive("keytab: " + err.Error())
+			return
+		}
+	}
 	mkClient := func() *client.Client {
 		if c.kind == "pw" {
 			return client.NewWithPassword(cname, home, w.pw, cfg, client.DisablePAFXFAST(true))
@@ -268,16 +343,20 @@ func runHistory(t *testing.T, r *vh.Run, w *world, ck string, c conf, nops int) 
 		if c.kind == "pwsa" {
 			return client.NewWithPassword(cname, home, w.pw, cfg, client.DisablePAFXFAST(true), client.AssumePreAuthentication(true))
 		}
-		return client.NewWithKeytab(cname, home, w.kt, cfg, client.DisablePAFXFAST(true))
+		return client.NewWithKeytab(cname, home, kt, cfg, client.DisablePAFXFAST(true))
 	}
 	type window struct{ from, to time.Time }
 	var reqWindows []window // per KDC request serial (index = serial-1): virtual time window in which it was sent
-	topSPN := ""
+	// the SPN(s) that make the topology matter: several services of the mapped realm (so that some are requested for the
+	// first time long after the cross-realm TGT was obtained), the remote service at the end of the referral chain
+	var topSPNs []string
 	switch {
 	case c.topology == "xrealm-mapped":
-		topSPN = "HTTP/svc.mapped.r1"
+		for i := 0; i < nMapped; i++ {
+			topSPNs = append(topSPNs, mappedSvc(i).String())
+		}
 	case strings.HasPrefix(c.topology, "referral"):
-		topSPN = remoteSvc(c.topology).String()
+		topSPNs = []string{remoteSvc(c.topology).String()}
 	}
 	var pnc bool
 	var pv, pw string
@@ -364,6 +443,56 @@ func runHistory(t *testing.T, r *vh.Run, w *world, ck string, c conf, nops int) 
 			}
 			loggedIn := false
 			loopPoisoned := false
+			epoch := 0 // index into the issue log of the first ticket the present client incarnation can hold
+			// xrealmDue: the present client holds (or held) a cross-realm TGT that is past the point at which it has to be
+			// replaced (5/6 of its lifetime): what the client presents to the other realm from now on shows whether it was
+			xrealmDue := func(at time.Time) bool {
+				is := w.k.Issues()
+				for i := epoch; i < len(is); i++ {
+					if is[i].Kind == "XREALM" && !at.Before(is[i].StartTime.Add(is[i].EndTime.Sub(is[i].StartTime)*5/6)) {
+						return true
+					}
+				}
+				return false
+			}
+			// Model of the client's background refresh timers, kept only where the clock is taken past the lifetime of a
+			// cross-realm TGT (modelled, see sessionLimit). gokrb5 starts one goroutine per TGT session that sleeps 5/6 of the
+			// remaining lifetime and then obtains a replacement. A cross-realm TGT never outlives the home TGT it was obtained
+			// with, so the two goroutines drift towards the same firing instant (the gap shrinks by 6 each round); when they
+			// fire together they log in concurrently, which is C11's subject and can leave a session goroutine nobody cancels
+			// (a virtual clock then stalls). The model knows the start instant (the virtual clock stands still during an
+			// operation) and the end time (issue log) of both sessions, walks the clock from firing instant to firing instant
+			// and re-creates the client instead of letting two timers fire within a millisecond of each other.
+			modelled := c.topology == "xrealm-mapped" && c.renew == 0
+			type sessModel struct {
+				live       bool
+				start, end time.Time
+			}
+			var mH, mX sessModel
+			issueSeen := 0
+			fire := func(m sessModel) time.Time { return m.start.Add(m.end.Sub(m.start) * 5 / 6) }
+			updateModel := func(at time.Time) (nAS, nX int) {
+				is := w.k.Issues()
+				if issueSeen > len(is) {
+					issueSeen = len(is)
+				}
+				for _, x := range is[issueSeen:] {
+					switch x.Kind {
+					case "AS":
+						mH = sessModel{true, at, x.EndTime}
+						nAS++
+					case "XREALM":
+						mX = sessModel{true, at, x.EndTime}
+						nX++
+					}
+				}
+				issueSeen = len(is)
+				return
+			}
+			resetModel := func() {
+				mH, mX = sessModel{}, sessModel{}
+				issueSeen = len(w.k.Issues())
+			}
 			for i := 0; i < nops; i++ {
 				now := time.Now()
 				w.now.Store(now.UnixNano())
@@ -379,6 +508,9 @@ func runHistory(t *testing.T, r *vh.Run, w *world, ck string, c conf, nops int) 
 						viol("C10|login-failed", "Login failed against a healthy KDC with valid credentials: "+err.Error(), nil)
 					} else {
 						loggedIn = true
+						if c.ktOnly {
+							r.Inc("logins_with_keytab_of_tkt_enctypes_only")
+						}
 					}
 					if rec.NReq > 8 {
 						viol("C10|round-trips|Login", fmt.Sprintf("Login needed %d KDC round trips", rec.NReq), nil)
@@ -392,10 +524,15 @@ func runHistory(t *testing.T, r *vh.Run, w *world, ck string, c conf, nops int) 
 						viol("C10|login-failed", "AffirmLogin failed against a healthy KDC: "+err.Error(), nil)
 					} else {
 						loggedIn = true
+						if c.ktOnly && rec.NReq > 0 {
+							r.Inc("logins_with_keytab_of_tkt_enctypes_only")
+						}
 					}
 				case x < 62:
 					spn := svcName(rnd.Intn(4)).String()
-					if topSPN != "" && rnd.Intn(3) == 0 {
+					topSPN := ""
+					if len(topSPNs) > 0 && rnd.Intn(3) == 0 {
+						topSPN = topSPNs[rnd.Intn(len(topSPNs))]
 						spn = topSPN
 					}
 					rec.Op = "GetServiceTicket " + spn
@@ -423,6 +560,9 @@ func runHistory(t *testing.T, r *vh.Run, w *world, ck string, c conf, nops int) 
 						}
 						if spn == topSPN && chainLen(c.topology) > 0 && rec.NReq > 0 {
 							r.Inc("referral_chains_followed")
+						}
+						if spn == topSPN && c.topology == "xrealm-mapped" && rec.NReq > 0 && xrealmDue(now) {
+							r.Inc("xrealm_tickets_obtained_after_tgt_refresh_due")
 						}
 					}
 					bound := 8
@@ -453,6 +593,7 @@ func runHistory(t *testing.T, r *vh.Run, w *world, ck string, c conf, nops int) 
 						loggedIn = false
 						loopPoisoned = false
 						w.k.ResetIssuesKeepRequests()
+						epoch = 0
 					}
 					rec.Op, rec.Advance = "advance", d.String()
 					crossed := false
@@ -464,7 +605,60 @@ func runHistory(t *testing.T, r *vh.Run, w *world, ck string, c conf, nops int) 
 					if crossed {
 						r.Inc("advances_across_endtime")
 					}
-					time.Sleep(d)
+					rest := d
+					if modelled {
+						target, cur, xFired := now.Add(d), now, false
+						for {
+							var next time.Time
+							nextIsX := false
+							if mH.live {
+								next = fire(mH)
+							}
+							if mX.live && (next.IsZero() || fire(mX).Before(next)) {
+								next, nextIsX = fire(mX), true
+							}
+							if next.IsZero() || next.After(target) {
+								break
+							}
+							if !next.After(cur) {
+								// cannot happen while the model is right: stop modelling this timer
+								r.Inc("observe_refresh_timer_not_as_modelled")
+								if nextIsX {
+									mX.live = false
+								} else {
+									mH.live = false
+								}
+								continue
+							}
+							if gap := fire(mX).Sub(fire(mH)); mH.live && mX.live && gap < time.Millisecond && gap > -time.Millisecond {
+								r.Inc("observe_coincident_refresh_avoided_by_recreate")
+								pcommon.Teardown(cl)
+								markWindow(now, cur)
+								cl = mkClient()
+								loggedIn = false
+								resetModel()
+								epoch = len(w.k.Issues())
+								break
+							}
+							time.Sleep(next.Sub(cur))
+							synctest.Wait()
+							cur = next
+							nAS, nX := updateModel(cur)
+							if nextIsX && nX == 0 {
+								r.Inc("observe_refresh_timer_not_as_modelled")
+								mX.live = false
+							} else if !nextIsX && nAS == 0 {
+								r.Inc("observe_refresh_timer_not_as_modelled")
+								mH.live = false
+							}
+							xFired = xFired || nextIsX
+						}
+						if xFired {
+							r.Inc("advances_across_xrealm_tgt_refresh_point")
+						}
+						rest = target.Sub(cur)
+					}
+					time.Sleep(rest)
 					// a background renewal whose timer fires exactly at the new instant runs concurrently with this goroutine:
 					// let it finish (C10 checks sequential histories; concurrency is C11's subject)
 					synctest.Wait()
@@ -476,6 +670,11 @@ func runHistory(t *testing.T, r *vh.Run, w *world, ck string, c conf, nops int) 
 					cl = mkClient()
 					loggedIn = false
 					loopPoisoned = false
+					epoch = len(w.k.Issues())
+					resetModel()
+				}
+				if modelled && rec.Op != "advance" {
+					updateModel(now) // tickets issued during an operation: the session goroutine started at this very instant
 				}
 				hist = append(hist, rec)
 				opsDone.Add(1)
@@ -533,6 +732,12 @@ func sessionLimit(w *world, c conf) time.Time {
 	for _, is := range w.k.Issues() {
 		if is.Kind == "AS" && is.RenewTill != nil {
 			upd(is.RenewTill.Add(-2*c.life - time.Hour))
+		}
+		if c.topology == "xrealm-mapped" && c.renew == 0 {
+			// the one multi-realm regime a virtual clock can pass: the client asks its own KDC for the cross-realm TGT, so a
+			// replacement is always obtainable, and without renew-till it is a fresh ticket under the (by then re-obtained)
+			// home TGT: full length again, no shrinking rounds
+			continue
 		}
 		if is.Kind != "AS" && is.Kind != "RENEW" && len(is.SName.Parts) == 2 && is.SName.Parts[0] == "krbtgt" {
 			upd(is.StartTime.Add(is.EndTime.Sub(is.StartTime)*5/6 - time.Second))
@@ -625,9 +830,16 @@ func checkRequest(r *vh.Run, viol func(fp, what string, extra map[string]any), c
 	bad := func(field, what string) {
 		viol("C10|request-field|"+kind+"|"+field, kind+"-REQ "+field+": "+what, ex)
 	}
-	want := etLists[c.etlist]
+	// AS-REQ: default_tkt_enctypes; TGS-REQ: default_tgs_enctypes (krb5.conf(5); the two need not be the same list)
+	want, wantFrom := etLists[c.etlist], "default_tkt_enctypes"
+	if kind == "TGS" {
+		want, wantFrom = etLists[c.tgsEt], "default_tgs_enctypes"
+	}
+	if c.tgsEt != c.etlist {
+		r.Inc("requests_checked_" + kind + "_tkt_and_tgs_enctypes_differ")
+	}
 	if fmt.Sprint(b.Etypes) != fmt.Sprint(want) {
-		bad("etype", fmt.Sprintf("etype list %v, configuration dictates %v", b.Etypes, want))
+		bad("etype", fmt.Sprintf("etype list %v, configuration dictates %v (%s)", b.Etypes, want, wantFrom))
 	}
 	// options
 	renewing := hasBit(b.Options, simkdc.OptRenew)
